@@ -45,10 +45,13 @@ namespace
   std::string
   dwarf_tail (char const *api, zw_value const *dw)
   {
-    // Name of the Dwarf that a DIE / attribute / symbol belongs to.
+    // Name and flavour of the Dwarf that a DIE / attribute / symbol belongs to.
     if (dw == nullptr)
       return std::string ("!") + api;
-    return std::string (zw_value_dwarf_name (dw));
+    std::string r = zw_value_dwarf_name (dw);
+    if (auto da = dynamic_cast <doneness_aspect const *> (dw))
+      r += da->is_raw () ? "/raw" : "/cooked";
+    return r;
   }
 }
 
